@@ -453,6 +453,7 @@ type Lemma struct {
 	Hyps  []*Clause
 	Concl []*Clause
 	Fuel  int
+	Opaque []string // variables whose spec-function applications are not unfolded
 	File  string
 	Line  int
 }
@@ -463,7 +464,7 @@ type ContractSet struct {
 	Files  []string
 }
 
-var clauseHead = regexp.MustCompile(`^(func|external|lemma|requires|ensures|invariant|decreases|assigns|loop|trusted|may_panic|fresh|var|hyp|concl|fuel)\b(\[[^\]]*\])?\s*(.*)$`)
+var clauseHead = regexp.MustCompile(`^(func|external|lemma|requires|ensures|invariant|decreases|assigns|loop|trusted|may_panic|fresh|var|hyp|concl|fuel|opaque)\b(\[[^\]]*\])?\s*(.*)$`)
 
 func loadContracts(files []string) (*ContractSet, error) {
 	cs := &ContractSet{ByKey: map[string]*Contract{}}
@@ -591,6 +592,11 @@ func (cs *ContractSet) parseFile(file, src string) error {
 				}
 				curLemma.Vars = append(curLemma.Vars, [2]string{f[0], f[1]})
 			}
+		case "opaque":
+			if curLemma == nil {
+				return fmt.Errorf("%s:%d: opaque outside lemma", file, r.line)
+			}
+			curLemma.Opaque = append(curLemma.Opaque, splitNames(r.rest)...)
 		case "fuel":
 			if curLemma == nil {
 				return fmt.Errorf("%s:%d: fuel outside lemma", file, r.line)
